@@ -115,13 +115,28 @@ pub fn start(cfg: &Cfg, apps: &Arc<Vec<Vec<L>>>, proto: &dyn Monitor) -> Run {
 
 pub fn bytes_for(w: &World, ev: &Event, delivered: &[Vec<u8>]) -> Option<Vec<u8>> {
     match ev {
-        Event::Deliver { to, reply } => Some(match to {
-            Target::Req(i) => match w.reqs.get(*i) {
-                Some(r) => build_reply(w, r.id, Some(&r.first), reply),
-                None => build_reply(w, UNKNOWN_ID, None, reply),
-            },
-            Target::Unknown => build_reply(w, UNKNOWN_ID, None, reply),
-        }),
+        Event::Deliver { to, reply } => {
+            let mut b = match to {
+                Target::Req(i) => match w.reqs.get(*i) {
+                    Some(r) => build_reply(w, r.id, Some(&r.first), reply),
+                    None => build_reply(w, UNKNOWN_ID, None, reply),
+                },
+                Target::Unknown => build_reply(w, UNKNOWN_ID, None, reply),
+            };
+            if reply.fp == super::server::RFp::ValueOfPrevious {
+                // the last four bytes (the FINGERPRINT value) are those of the previously delivered buffer, when that one
+                // ended in a FINGERPRINT attribute too; otherwise the value is simply off by one
+                let n = b.len();
+                match delivered.last() {
+                    Some(p) if p.len() >= 8 && p[p.len() - 8..p.len() - 4] == [0x80, 0x28, 0x00, 0x04] && p[p.len() - 4..] != b[n - 4..] => {
+                        let v = p[p.len() - 4..].to_vec();
+                        b[n - 4..].copy_from_slice(&v);
+                    }
+                    _ => b[n - 1] ^= 0x01,
+                }
+            }
+            Some(b)
+        }
         Event::Redeliver(k) => if *k == usize::MAX { delivered.last().cloned() } else { delivered.get(*k).cloned() },
         Event::RawBytes(b) => Some(b.clone()),
         _ => None,
@@ -184,6 +199,8 @@ pub type Visit<'a> = &'a (dyn Fn(&[Event], &mut Report) + Sync);
 
 /// Like `bfs`; `visit` is called once for every distinct state (with a history reaching it) when it is expanded.
 pub fn bfs_with(cfg: &Cfg, apps: &Arc<Vec<Vec<L>>>, proto: &dyn Monitor, depth: usize, max_states: usize, rep: &mut Report, visit: Option<Visit>) -> BfsStats {
+    // second pass (logging off): two levels shallower, never below 4
+    let (depth, max_states) = if crate::util::second_pass() { (depth.saturating_sub(2).max(4).min(depth), max_states / 2) } else { (depth, max_states) };
     let mut seen: HashSet<u128> = HashSet::new();
     let mut frontier: Vec<Vec<Event>> = vec![vec![]];
     {
@@ -255,6 +272,11 @@ pub fn bfs_with(cfg: &Cfg, apps: &Arc<Vec<Vec<L>>>, proto: &dyn Monitor, depth: 
         }
         if stats.capped {
             rep.capped = Some(format!("state cap {} reached at depth {}", max_states, d + 1));
+        }
+        if crate::util::rss_gib() > crate::util::rss_cap_gib() {
+            stats.capped = true;
+            rep.capped = Some(format!("memory cap: resident set above {} GiB after depth {}; deeper levels not explored", crate::util::rss_cap_gib(), d + 1));
+            break;
         }
         frontier = next;
     }
